@@ -255,7 +255,10 @@ class Policy:
                 return None
         if self.use is not None and fi.qualname not in self.use:
             return None
-        if not getattr(c, "callable_by_contract", True):
+        cb = getattr(c, "callable_by_contract", True)
+        if callable(cb):
+            cb = cb(I)              # a contract may be usable at call sites only inside particular verification tasks
+        if not cb:
             return None
         return c
 
